@@ -19,6 +19,14 @@ for i in 1 2 3; do
   suite="$res"
   [ -z "$failed" ] && break
 done
+if [ -n "$failed" ]; then
+  # tests of the suite share one process under cargo test; the pinned baseline runs one process per
+  # test (nextest) - the closest here is one test at a time
+  out=$(cargo test --workspace --no-fail-fast --offline -- --test-threads=1 2>&1)
+  res=$(echo "$out" | grep -E "^test result" | head -1)
+  failed=$(echo "$out" | grep -E "^test [A-Za-z0-9_:]+ \.\.\. FAILED" | sed 's/^test //; s/ \.\.\. FAILED//' | tr '\n' ' ')
+  suite="$res (one test at a time)"
+fi
 demo_with="n/a"; demo_without="n/a"; name=""
 if [ -f "$d/demo.diff" ]; then
   git apply "$d/demo.diff" || { echo "RESULT demo_applies=no"; }
